@@ -4,6 +4,11 @@ mod mt_executor;
 mod st_executor;
 mod task;
 
+#[cfg(feature = "verif-hooks")]
+pub(crate) mod verif_runnable {
+    pub(crate) use super::task::Runnable;
+}
+
 use std::any::Any;
 use std::future::Future;
 use std::sync::atomic::{AtomicBool, AtomicUsize, Ordering};
